@@ -78,7 +78,10 @@ func (ts *TagSet) Merge(other *TagSet) *TagSet {
 	if other == nil || ts.Schema != other.Schema {
 		return ts
 	}
-	nl := ts.List // shallow copy
+	// copy the list so that appending never writes into the (shared)
+	// backing array of the original definition
+	nl := make([]*cbc.Definition, len(ts.List), len(ts.List)+len(other.List))
+	copy(nl, ts.List)
 	for _, t := range other.List {
 		found := false
 		for _, nlt := range nl {
